@@ -1,0 +1,6 @@
+//go:build !verif
+
+package eventbus
+
+// verifYield is a no-op unless built with the "verif" tag.
+func verifYield(point string, h *internalHandler) {}
